@@ -746,7 +746,7 @@ def regenerate(repo, which, out_path, hashseed=None):
     return p.returncode, p.stderr[-500:]
 
 
-def c16(X, which="xonsh", repo="/repo"):
+def c16(X, which="xonsh", repo=O.REPO_DEFAULT):
     import os
     import shutil
     import tempfile
@@ -818,7 +818,7 @@ print(json.dumps(out))
 '''
 
 
-def file_vs_string(contents, env_name, repo="/repo", timeout=300):
+def file_vs_string(contents, env_name, repo=O.REPO_DEFAULT, timeout=300):
     """run parse_file and parse_string on each content in a child interpreter started with the given environment"""
     import json
     import os
@@ -836,7 +836,7 @@ def universal(text):
     return text.replace("\r\n", "\n").replace("\r", "\n")
 
 
-def c12(X, content, env_name="C-ascii", repo="/repo"):
+def c12(X, content, env_name="C-ascii", repo=O.REPO_DEFAULT):
     if "\x00" in content:
         return None
     res, err = file_vs_string([content], env_name, repo)
@@ -935,7 +935,7 @@ def state_diff(a, b):
     return [k for k in keys if a.get(k) != b.get(k)]
 
 
-def c13(X, history, repo="/repo"):
+def c13(X, history, repo=O.REPO_DEFAULT):
     """outcomes of a history of parse_string calls in this process vs each call alone in a fresh interpreter; module state untouched"""
     import json
     import os
@@ -1238,7 +1238,7 @@ def c17_same(gen, ref):
     return gen == ref
 
 
-def c17(X, grammar_data, w, repo="/repo"):
+def c17(X, grammar_data, w, repo=O.REPO_DEFAULT):
     """generate a parser for the grammar with the working tree's generator and compare it with the reference PEG interpreter on the token string w"""
     import os
     here = os.path.dirname(os.path.abspath(__file__))
